@@ -19,6 +19,7 @@ import (
 	"encoding/json"
 	"fmt"
 	"math/big"
+	"os"
 	"strings"
 
 	"github.com/ontio/ontology/common"
@@ -39,9 +40,13 @@ func init() { hx.Register("C05", Run) }
 
 type blockInput struct {
 	Seed    int64     `json:"seed"`
-	Block   int       `json:"block"`           // index of the generated block (replay: regenerate up to it with the same seed)
-	Witness string    `json:"witness"`         // deterministic probe name, or ""
-	Price   string    `json:"price,omitempty"` // witness "gasprice": the gas price (decimal)
+	Block   int       `json:"block"`             // index of the generated block (replay: regenerate up to it with the same seed)
+	Witness string    `json:"witness"`           // deterministic probe name, or ""
+	Price   string    `json:"price,omitempty"`   // witness "gasprice" / "tx": the gas price (decimal)
+	Limit   string    `json:"limit,omitempty"`   // witness "tx": gas limit
+	Balance string    `json:"balance,omitempty"` // witness "tx": the payer's ONG balance (10^-9 ONG)
+	Code    string    `json:"code,omitempty"`    // witness "tx": the script (hex)
+	Label   string    `json:"label,omitempty"`
 	Txs     []*txDesc `json:"txs"`
 	Failed  int       `json:"failed_tx"`
 }
@@ -123,6 +128,17 @@ func (w *world) runBlock(in *blockInput, txs []*types.Transaction, report bool) 
 	if err != nil {
 		c.Fail("driver-gen", "block could be built", in, err.Error(), nil)
 		return false
+	}
+	if os.Getenv("C05_CHILD") == "" { // the parent never runs a wrap suspect before a child has survived it
+		for i, tx := range txs {
+			old := w.balanceOf(tx.Payer)
+			if wrapSuspect(tx, old) {
+				in.Failed = i
+				if !w.guard(tx, old, in, "generated") {
+					return true // reported; the block is dropped
+				}
+			}
+		}
 	}
 	obs := make([]*txObs, len(txs))
 	wpanic, wmsg := hx.Recover(func() { err = walk(w, blk, obs) })
@@ -239,6 +255,17 @@ func (w *world) oracle(in *blockInput, blk *types.Block, obs []*txObs, notifies 
 			}
 			if n.State == event.CONTRACT_STATE_FAIL && o.Probe != nil && len(o.Probe.Cache) > 0 {
 				c.Count("composite:failed-after-writes")
+			}
+		}
+		if o.Underflow != 0 {
+			c.Fail("gas:available-gas-underflow", "the engine never gets more gas than GasLimit", in, o.Underflow, tx.GasLimit)
+		}
+		if old, ok := balanceU64(o.PayerRaw); ok && wrapSuspect(tx, old) {
+			c.Count("wrap-suspect:executed")
+			// a fee product overflows: the handler must refuse the transaction before running it
+			if n.State != event.CONTRACT_STATE_FAIL || o.Probe != nil || (n.GasConsumed != old && n.GasConsumed != 0) {
+				c.Fail("gas:available-gas-underflow", "a transaction whose fee products overflow is refused with the balance charged", in,
+					fmt.Sprint("state ", n.State, " GasConsumed ", n.GasConsumed), fmt.Sprint("state 0 GasConsumed ", old))
 			}
 		}
 		// (0) an execution writes only into the transaction cache: nothing may reach the block
